@@ -388,13 +388,15 @@ theorem queries_on_hwire {d : Design} (hwf : WF d) (x : HRef) (rec : Bool) {C : 
 
 theorem queries_on_hcable {d : Design} (hwf : WF d) (x : HRef) (rec : Bool) {C : Cable} (hx : Occ d x (.cable C)) :
     (∀ y, y ∈ (getHWires d (.href x) rec .inside).1 ↔ ∃ w ∈ C.wires, y = w.id :: x) ∧
+    (getHCables d (.href x) rec .inside).1 = [x] ∧
     (getHInstances d (.href x) rec).1 = [x.tail] := by
-  refine ⟨fun y => ?_, ?_⟩
+  refine ⟨fun y => ?_, ?_, ?_⟩
   · simp only [getHWires, hrefsOfItem, List.map_cons, List.map_nil, List.flatMap_cons, List.flatMap_nil,
       List.append_nil, mem_dedup, hwiresOfHRef, resolve_complete hwf hx, List.mem_map]
     constructor
     · rintro ⟨w, hw, rfl⟩; exact ⟨w, hw, rfl⟩
     · rintro ⟨w, hw, rfl⟩; exact ⟨w, hw, rfl⟩
+  · simp [getHCables, hrefsOfItem, hcablesOfHRef, resolve_complete hwf hx, dedup]
   · simp [getHInstances, hinstsOfHRef, resolve_complete hwf hx, dedup]
 
 /-- **the searches of C11 always finish**: the `finished` flags of the hypotheses above are provably
